@@ -8,6 +8,9 @@
 //! `get_block(finalized)` / `get_logs` call is answered by the explorer, either
 //! truthfully or with a transport error / an RPC error response; between rounds
 //! the finalized height of the DA chain may be raised.
+//! Anything that breaks an assumption of the harness itself (two provider calls in
+//! flight, an unexpected provider method, a write outside EventsHistory) is a
+//! machinery failure, never a verdict.
 use alloy_primitives::{Bytes, FixedBytes, IntoLogData, LogData, B256, U256};
 use alloy_provider::{
     network::Ethereum,
@@ -532,7 +535,7 @@ impl RelayerSubject {
     fn oracle(&self, w: &mut World) -> Result<(), Violation> {
         let chain = &w.shared.chain;
         if let Some(m) = w.shared.st.lock().unwrap().misuse.clone() {
-            return Err(viol("harness-assumption-broken", m));
+            machinery_failure(&format!("C29: harness assumption broken: {}", m));
         }
         let db_latest = w.db_latest();
         let (shared_h, _) = w.shared_sync();
@@ -583,7 +586,7 @@ impl RelayerSubject {
         // no height written twice
         let s = w.db.0.lock().unwrap();
         if let Some(o) = s.odd_writes.first() {
-            return Err(viol("harness-assumption-broken", format!("unexpected storage write: {o}")));
+            machinery_failure(&format!("C29: harness assumption broken: {}", format!("unexpected storage write: {o}")));
         }
         let mut seen: BTreeMap<u64, &Option<Vec<u8>>> = BTreeMap::new();
         for (h, v) in &s.writes {
@@ -686,13 +689,13 @@ impl Subject for RelayerSubject {
         match op {
             Op::Raise => {
                 if w.in_round {
-                    return Err(viol("harness-assumption-broken", "Raise inside a round"));
+                    machinery_failure(&format!("C29: harness assumption broken: {}", "Raise inside a round"));
                 }
                 w.shared.st.lock().unwrap().finalized += 1;
             }
             Op::Start => {
                 if w.in_round {
-                    return Err(viol("harness-assumption-broken", "Start inside a round"));
+                    machinery_failure(&format!("C29: harness assumption broken: {}", "Start inside a round"));
                 }
                 w.in_round = true;
                 w.db_at_round_start = db_before;
@@ -710,7 +713,7 @@ impl Subject for RelayerSubject {
                 {
                     let mut s = w.shared.st.lock().unwrap();
                     let Some(req) = s.pending.clone() else {
-                        return Err(viol("harness-assumption-broken", format!("{op:?} without a pending provider call")));
+                        machinery_failure(&format!("C29: harness assumption broken: {}", format!("{op:?} without a pending provider call")));
                     };
                     let applicable = match (&req, a) {
                         (_, Ans::Ok | Ans::Transport | Ans::Rpc) => true,
@@ -719,7 +722,7 @@ impl Subject for RelayerSubject {
                         _ => false,
                     };
                     if !applicable {
-                        return Err(viol("harness-assumption-broken", format!("{op:?} does not answer {req:?}")));
+                        machinery_failure(&format!("C29: harness assumption broken: {}", format!("{op:?} does not answer {req:?}")));
                     }
                     answered = Some(req);
                     s.answer = Some(a);
@@ -824,9 +827,8 @@ fn layouts(n_blocks: usize, thorough: bool) -> Vec<(&'static str, Layout)> {
         blocks: (0..n_blocks).map(|h| if h == 0 { vec![] } else { pat[(h + shift) % pat.len()].clone() }).collect(),
         newest_first,
     };
-    let mut v = vec![("dense", mk(&dense, true, 0)), ("sparse", mk(&sparse, true, 0))];
+    let mut v = vec![("dense", mk(&dense, true, 0)), ("sparse", mk(&sparse, true, 0)), ("bursty", mk(&bursty, false, 0))];
     if thorough {
-        v.push(("bursty", mk(&bursty, false, 0)));
         v.push(("dense-shifted", mk(&dense, false, 2)));
     }
     v
@@ -839,7 +841,13 @@ fn subjects(cli: &Cli, stats: &Arc<Stats>) -> Vec<RelayerSubject> {
     for (lname, layout) in layouts(n_blocks, thorough) {
         for start in [0u64, 2] {
             for page in [1u64, 2, 5] {
-                let knobs: Vec<(u64, u64)> = if thorough { vec![(2, 2), (3, 1), (1000, 3)] } else { vec![(2, 2)] };
+                let knobs: Vec<(u64, u64)> = if thorough {
+                    vec![(2, 2), (3, 1), (1000, 3)]
+                } else if lname == "dense" {
+                    vec![(2, 2), (1000, 1)]
+                } else {
+                    vec![(2, 2)]
+                };
                 for (max_logs, grow) in knobs {
                     let cfg = Cfg { layout: layout.clone(), start, page, max_logs, grow, finalized0: 0, raise: true };
                     v.push(RelayerSubject::new(format!("relayer[{lname},deploy={start},page={page},max_logs={max_logs},grow={grow},tip={}]", n_blocks - 1), cfg, stats.clone()));
@@ -873,9 +881,11 @@ fn layout_sweep(cli: &Cli, stats: &Arc<Stats>) -> Sweep {
     let opts = block_options();
     let heights: usize = cli.tier.pick(4, 5);
     let total = opts.len().pow(heights as u32);
+    let orders: Vec<bool> = cli.tier.pick(vec![true], vec![true, false]);
     let rule = format!(
-        "every DA chain of {heights} blocks (heights 1..={heights}) where each block carries one of {} log lists (none; one of message/forced tx/unknown; every ordered pair of those with the higher log index listed first) x response order (newest block first / oldest first) x log_page_size {{1,2,5}} x da_deploy_height {{0,2}}; max_logs_per_rpc=2, grow threshold 1 so that pages shrink and grow; one failure-free sync to the tip, oracle after every provider answer; non-trivial = at least one block with two logs or an unknown event; distinct by the whole layout and configuration",
-        opts.len()
+        "every DA chain of {heights} blocks (heights 1..={heights}) where each block carries one of {} log lists (none; one of message/forced tx/unknown; every ordered pair of those with the higher log index listed first) x response order ({}) x log_page_size {{1,2,5}} x da_deploy_height {{0,2}}; max_logs_per_rpc=2, grow threshold 1 so that pages shrink and grow; one failure-free sync to the tip, oracle after every provider answer; non-trivial = at least one block with two logs or an unknown event; distinct by the whole layout and configuration",
+        opts.len(),
+        if orders.len() == 2 { "newest block first / oldest first" } else { "newest block first, i.e. descending (block, log index)" }
     );
     par_sweep("all small DA log sets, failure-free sync", &rule, total, cli.threads, |i, sw| {
         let mut x = i;
@@ -885,7 +895,7 @@ fn layout_sweep(cli: &Cli, stats: &Arc<Stats>) -> Sweep {
             x /= opts.len();
         }
         let nontrivial = blocks.iter().any(|b| b.len() == 2 || b.iter().any(|(k, _)| *k == U));
-        for newest_first in [true, false] {
+        for &newest_first in &orders {
             for start in [0u64, 2] {
                 for page in [1u64, 2, 5] {
                     let cfg = Cfg { layout: Layout { blocks: blocks.clone(), newest_first }, start, page, max_logs: 2, grow: 1, finalized0: heights as u64, raise: false };
@@ -917,7 +927,7 @@ fn run_to_tip(s: &RelayerSubject) -> Result<u64, Violation> {
         s.step(&mut w, &Op::Ok)?;
         guard += 1;
         if guard > 1000 {
-            return Err(viol("harness-assumption-broken", "a failure-free round does not end"));
+            machinery_failure(&format!("C29: harness assumption broken: {}", "a failure-free round does not end"));
         }
     }
     // a failure-free round must reach the finalized height (sanity of the harness, and liveness of the sweep)
@@ -967,15 +977,36 @@ pub fn run(cli: &Cli) {
 
     let mut run = Run::new(cli, "model_checking");
     let devs = cli.tier.pick(2, 3);
-    let per_wall = cli.tier.pick(45u64, 1300);
-    let t0 = std::time::Instant::now();
-    let mut merged = Report { subject: format!("{} relayer configurations (merged)", subs.len()), exhaustive: true, max_deviations: Some(devs), ..Default::default() };
+    // Subjects are independent: explore them in parallel, each search single-threaded
+    // (deterministic per subject; no truncation by a shared clock).
+    let wall = cli.tier.pick(50u64, 1400);
+    let max_depth = 200;
+    let mk_bounds = || {
+        let mut b = Bounds::new(max_depth, cli).deviations(devs).wall(wall);
+        b.threads = 1;
+        b
+    };
+    let next = std::sync::atomic::AtomicUsize::new(0);
+    let results: Mutex<Vec<(usize, Report)>> = Mutex::new(vec![]);
+    std::thread::scope(|sc| {
+        for _ in 0..cli.threads.max(1).min(subs.len()) {
+            sc.spawn(|| loop {
+                let i = next.fetch_add(1, Ordering::Relaxed);
+                if i >= subs.len() {
+                    break;
+                }
+                let r = explore(&subs[i], &mk_bounds());
+                results.lock().unwrap().push((i, r));
+            });
+        }
+    });
+    let mut results = results.into_inner().unwrap();
+    results.sort_by_key(|(i, _)| *i);
+    let mut merged = Report { subject: String::new(), exhaustive: true, max_deviations: Some(devs), ..Default::default() };
     let mut shown = 0;
-    for s in &subs {
-        let left = per_wall.saturating_sub(t0.elapsed().as_secs()).max(1);
-        let b = Bounds::new(200, cli).deviations(devs).wall(left);
-        let r = explore(s, &b);
-        let exhausted = r.exhaustive && r.depth_completed < b.max_depth;
+    let mut merged_n = 0;
+    for (_, r) in results {
+        let exhausted = r.exhaustive && r.depth_completed < max_depth;
         if !r.violations.is_empty() || !exhausted || shown < 2 {
             shown += 1;
             let mut r = r;
@@ -985,6 +1016,7 @@ pub fn run(cli: &Cli) {
             }
             run.add(r);
         } else {
+            merged_n += 1;
             merged.states += r.states;
             merged.transitions += r.transitions;
             merged.replayed_prefixes += r.replayed_prefixes;
@@ -1004,6 +1036,7 @@ pub fn run(cli: &Cli) {
         }
     }
     if merged.transitions > 0 {
+        merged.subject = format!("{merged_n} further relayer configurations (merged)");
         run.add(merged);
     }
     let sw = layout_sweep(cli, &stats);
